@@ -32,6 +32,11 @@ pub struct OracleState {
     pub c19: crate::c19::State,
     /// Instance of the CA whose deletion the C19 oracle is to judge.
     pub c19_deleted_inst: Option<usize>,
+    /// `CrashNext`: (instance, k) for the next pump.
+    pub pending_crash: Option<(usize, u64)>,
+    /// The pump restarts an instance that crashed and goes on.
+    pub crash_recovery: bool,
+    pub crashes_recovered: u64,
 }
 
 /// Task names that recur for ever at short intervals; the pump does not
@@ -67,10 +72,38 @@ pub fn pump_stepwise(r: &mut Runner) -> Guarded<bool> {
                 if r.ext.signer_offline && idx == 0 {
                     drop_signer_sync_tasks(r);
                 }
-                let claimed = match guarded(|| {
+                let step = guarded(|| {
                     r.world.insts[idx].run_scheduler_step()
-                }) {
+                });
+                // An instance that died while it served a request of the
+                // one whose task just ran is started again.
+                if r.ext.crash_recovery {
+                    for crashed in crate::net::take_crashed() {
+                        if !restart_after_crash(r, crashed, "serving") {
+                            return Guarded::Ok(true)
+                        }
+                    }
+                }
+                let claimed = match step {
                     Guarded::Ok(claimed) => claimed,
+                    Guarded::Crash if r.ext.crash_recovery => {
+                        // The process died in the middle of a task.
+                        if !restart_after_crash(r, idx, "task") {
+                            return Guarded::Ok(true)
+                        }
+                        any = true;
+                        continue
+                    }
+                    Guarded::Fatal(msg) if r.ext.crash_recovery
+                        && hooks::state().fault.fired_at.is_some() =>
+                    {
+                        let _ = msg;
+                        if !restart_after_crash(r, idx, "task") {
+                            return Guarded::Ok(true)
+                        }
+                        any = true;
+                        continue
+                    }
                     Guarded::Crash => return Guarded::Crash,
                     Guarded::Fatal(msg) => return Guarded::Fatal(msg),
                     Guarded::Panic(msg) => return Guarded::Panic(msg),
@@ -151,6 +184,37 @@ pub fn pump_stepwise(r: &mut Runner) -> Guarded<bool> {
         if due > now_ms {
             let secs = ((due - now_ms + 999) / 1000) as i64;
             r.world.advance(secs);
+        }
+    }
+}
+
+/// Drops what is left of a crashed instance and starts it again from its
+/// directory. Returns false if it does not come up (the run is over).
+fn restart_after_crash(r: &mut Runner, idx: usize, during: &str) -> bool {
+    let at = hooks::state().fault.fired_at.clone().unwrap_or_default();
+    hooks::log(format!("crash of instance {idx} ({during}) at {at}"));
+    r.stat(&format!("crash_next.{during}"));
+    hooks::state().fire("crash_in_background");
+    r.world.insts[idx].stop();
+    let started = hooks::with_faults_suspended(|| {
+        guarded(|| r.world.insts[idx].start())
+    });
+    match started {
+        Guarded::Ok(Ok(())) => {
+            r.ext.crashes_recovered += 1;
+            after_restart(r, idx);
+            true
+        }
+        other => {
+            r.violation(
+                "C08", "restart_failed",
+                format!(
+                    "instance {idx} does not start after a crash at {at}: \
+                     {other:?}"
+                )
+            );
+            r.dead = Some("restart failed".into());
+            false
         }
     }
 }
